@@ -36,9 +36,10 @@ def mc_files(fam):
     rt = '[i \\in 1..%d |-> CASE ' % max(fam['maxtotal'], max(fam['series'])) + ' [] '.join(
         'i = %d -> [a |-> %d, b |-> %d, arr |-> %s]' % (i, t['a'], t['b'], tla_set(t['arr'])) for i, t in tags.items()) + ']'
     qs = '{' + ',\n  '.join(fam.get('queries', [])) + '}'
-    mc = '---- MODULE MCEng ----\nEXTENDS Engine\nMCRowTags == %s\nMCQueries == %s\n====\n' % (rt, qs)
+    script = '<<' + ', '.join('"%s"' % k for k in fam.get('script', [])) + '>>'
+    mc = '---- MODULE MCEng ----\nEXTENDS Engine\nMCRowTags == %s\nMCQueries == %s\nMCScript == %s\n====\n' % (rt, qs, script)
     cfg = ('SPECIFICATION Spec\nCONSTANTS\n  Series = %s\n  Times = %s\n  Versions = %s\n  Versioned = %s\n  MaxRows = %d\n  MaxTotal = %d\n'
-           '  MaxOps = %%d\n  RowTags <- MCRowTags\n  Queries <- MCQueries\n  TagsBySeries = %s\n') % (
+           '  MaxOps = %%d\n  RowTags <- MCRowTags\n  Queries <- MCQueries\n  TagsBySeries = %s\n  Script <- MCScript\n') % (
         tla_set(fam['series']), tla_set(fam['times']), tla_set(fam['versions']), 'TRUE' if fam['versioned'] else 'FALSE', fam['maxrows'], fam['maxtotal'], 'TRUE' if fam.get('tags_by_series') else 'FALSE')
     cfg += 'INVARIANTS\n' + ''.join('  %s\n' % i for i in INVARIANTS) + 'PROPERTIES\n' + ''.join('  %s\n' % p for p in PROPS)
     return mc, cfg, tags
@@ -92,7 +93,7 @@ def run_families(c, families, binp, nontrivial, procs=4):
             b = allb[v['behaviour']][: v['step'] + 1]
             again = c.run_harness_parallel(binp, ['-cfg', json.dumps(hcfg)], [b], name='repro', procs=1, timeout=600)
             if not [x for x in again['violations'] if x['signature'] == v['signature']]:
-                c.inconclusive('violation %s (family %s) not reproduced on a second run: %s' % (v['signature'], fam['name'], v['detail'][:300]))
+                c.unreproduced('violation %s (family %s) not reproduced on a second run: %s' % (v['signature'], fam['name'], v['detail'][:300]))
             c.report(v['signature'], v['detail'], {'behaviour': b, 'harness': 'eng', 'cfg': hcfg, 'family': fam['name']})
         tot['behaviours'] += res['behaviours']
         tot['steps'] += res['steps']
